@@ -41,6 +41,19 @@ class Obligation:
                 "havoc": self.havoc, "detail": self.detail[:300]}
 
 
+def _mentions_strings(fs):
+    seen = set()
+
+    def rec(e):
+        if e.get_id() in seen:
+            return False
+        seen.add(e.get_id())
+        if z3.is_expr(e) and e.sort().kind() in (z3.Z3_SEQ_SORT, z3.Z3_RE_SORT):
+            return True
+        return any(rec(c) for c in e.children())
+    return any(rec(f) for f in fs)
+
+
 def _rlimit_count(s):
     try:
         st = s.statistics()
@@ -159,6 +172,31 @@ class SymbolicPath:
         ob.detail = detail
         g = to_z3(goal)
         t0 = time.time()
+        if z3.is_true(z3.simplify(g)):
+            ob.result = "discharged"
+            ob.backend = "trivial"
+            self.obligations.append(ob)
+            self.session.record(ob)
+            return True
+        if self.session.strings_first and _mentions_strings(self.conds + [g]):
+            # string VCs: cvc5 decides most of what z3's sequence solver leaves open, and faster
+            self.solver.push()
+            try:
+                self.solver.add(z3.Not(g))
+                ob.smt2 = self.solver.to_smt2()
+            finally:
+                self.solver.pop()
+            if self.session.alt_backend is not None:
+                ob.result = "unknown"
+                self.session.alt_backend(self, g, ob)
+                if ob.result == "discharged":
+                    ob.seconds = time.time() - t0
+                    self.obligations.append(ob)
+                    self.session.record(ob)
+                    if assume_after:
+                        self.assume(g)
+                    return True
+                ob.result = None
         self.solver.push()
         try:
             self.solver.set("rlimit", self.session.rlimit_goal)
@@ -312,6 +350,7 @@ class Session:
         self.errors = []
         self.alt_backend = None
         self.keep_smt2 = False
+        self.strings_first = True
         self.functions = {}   # qualname -> {file, line, sha, how}
 
     def record(self, ob):
